@@ -252,13 +252,21 @@ type wf struct {
 	kind    map[string]byte // cleaned path -> 'd' | 'f'
 	handles []*wfHandle
 	dirty   map[string]int // directory -> mutation counter (for the listing rule)
-	lastChmod string       // path of the immediately preceding successful chmod ("" otherwise)
+	// paths whose permission bits were set by an explicit, successful Chmod and have belonged to the same
+	// file object ever since (creation modes are subject to the process umask on the OS side and are not
+	// compared; open(2) never changes the mode of a file that exists)
+	chmoded map[string]bool
 }
 
-func newWF() *wf { return &wf{kind: map[string]byte{"/": 'd'}, dirty: map[string]int{}} }
+func newWF() *wf {
+	return &wf{kind: map[string]byte{"/": 'd'}, dirty: map[string]int{}, chmoded: map[string]bool{}}
+}
 
 func (s *wf) clone() *wf {
-	c := &wf{kind: map[string]byte{}, dirty: map[string]int{}, lastChmod: s.lastChmod}
+	c := &wf{kind: map[string]byte{}, dirty: map[string]int{}, chmoded: map[string]bool{}}
+	for k := range s.chmoded {
+		c.chmoded[k] = true
+	}
 	for k, v := range s.kind {
 		c.kind[k] = v
 	}
@@ -330,9 +338,13 @@ func (s *wf) ancestorsOK(p string) bool {
 
 // apply checks one script line against the preconditions and, if accepted, updates the state.
 func (s *wf) apply(t []string) bool {
-	last := s.lastChmod
-	s.lastChmod = ""
-	ok := s.apply1(t, last)
+	ok := s.apply1(t, "")
+	// a path that no longer exists carries no explicit mode
+	for q := range s.chmoded {
+		if _, ex := s.kind[q]; !ex {
+			delete(s.chmoded, q)
+		}
+	}
 	return ok
 }
 
@@ -492,6 +504,21 @@ func (s *wf) apply1(t []string, lastChmod string) bool {
 					}
 				}
 			}
+			movedFlags := map[string]bool{}
+			for q := range s.chmoded {
+				if q == b || strings.HasPrefix(q, b+"/") {
+					delete(s.chmoded, q)
+				}
+			}
+			for q := range s.chmoded {
+				if q == a || strings.HasPrefix(q, a+"/") {
+					movedFlags[b+strings.TrimPrefix(q, a)] = true
+					delete(s.chmoded, q)
+				}
+			}
+			for q := range movedFlags {
+				s.chmoded[q] = true
+			}
 			moved := map[string]byte{}
 			for q, kq := range s.kind {
 				if q == a || strings.HasPrefix(q, a+"/") {
@@ -515,12 +542,12 @@ func (s *wf) apply1(t []string, lastChmod string) bool {
 			return false
 		}
 		if _, ex := s.kind[p]; ex {
-			s.lastChmod = p
+			s.chmoded[p] = true
 		}
 		return true
 	case "statperm": // permission bits are compared only where they were set explicitly
 		p, ok := s.resolve(arg(1))
-		return ok && p == lastChmod
+		return ok && s.chmoded[p]
 	}
 	if strings.HasPrefix(t[0], "h.") {
 		hi := atoi(t[1])
@@ -690,7 +717,11 @@ func genC01(r *corr.Rand, steps int) corr.Case {
 			}
 			try("rename " + hx(spell(r, s, a)) + " " + hx(spell(r, s, b)))
 		case k < 74:
-			try("stat " + hx(spell(r, s, pickP())))
+			if p := pickP(); s.chmoded[p] && r.Chance(60) {
+				try("statperm " + hx(p))
+			} else {
+				try("stat " + hx(spell(r, s, p)))
+			}
 		case k < 78:
 			p := pickP()
 			if try(fmt.Sprintf("chmod %s %d", hx(spell(r, s, p)), 0o700|r.Intn(0o100))) {
@@ -791,6 +822,9 @@ func c01Corpus() []corr.Case {
 	return []corr.Case{
 		// S17: Chmod with an unnormalised spelling
 		mk("mkdir "+h("/a")+" 493", "chmod "+h("/a/")+" 448", "statperm "+h("/a"), "chmod "+h("//a/.")+" 457", "statperm "+h("/a")),
+		// the mode argument of an open that does not create the file is ignored; a rename carries the mode along
+		mk("create "+h("/a"), "h.close 0", "chmod "+h("/a")+" 488", "openfile "+h("/a")+" 65 420", "h.write 1 58", "h.close 1", "statperm "+h("/a"),
+			"openfile "+h("/a")+" 578 384", "h.close 2", "statperm "+h("/a"), "rename "+h("/a")+" "+h("/c"), "statperm "+h("/c"), "create "+h("/c"), "statperm "+h("/c")),
 		// S18: Rename(x, x) of a missing name
 		mk("rename "+h("/nope")+" "+h("/nope"), "snapshot"),
 		// S19: Create over an existing file while an older handle is open
